@@ -722,8 +722,8 @@ func nhScenario(t *testing.T, rec *nhRec, tid int, seed int64, p nhParams) {
 	rec.t = tid
 	c := newNhCluster(rec, p.hosts, p.smType, p.store, seed)
 	r := &nhRun{t: t, c: c, p: p, hmu: make([]sync.RWMutex, p.hosts), done: map[int]bool{}}
-	rec.emit("Init", nhEv{"hosts": p.hosts, "sm": p.smType, "store": p.store, "seed": seed})
 	voters := p.hosts - p.nonvoting
+	rec.emit("Init", nhEv{"hosts": p.hosts, "sm": p.smType, "store": p.store, "seed": seed, "voters": voters})
 	for _, h := range c.hosts[:voters] {
 		c.members[uint64(h.id)] = h.addr
 	}
@@ -957,6 +957,12 @@ func TestVerifNhsim(t *testing.T) {
 			p.hosts, p.nonvoting, p.attack = 4, 1, "minority"
 		case 3:
 			p.hosts, p.attack = 5, "minority"
+		}
+		if mode == "pipe" && tid%6 == 5 {
+			// one voting member and one non-voting member: the leader is the quorum on its own, an entry is
+			// committed the moment it is appended - what the leader tells the non-voting member about the
+			// commit index must not be ahead of what the leader has made durable
+			p.hosts, p.nonvoting, p.attack = 2, 1, ""
 		}
 		if p.smType == "ondisk" {
 			p.sessions = false // IOnDiskStateMachine based replicas must use the NoOP session
